@@ -290,8 +290,248 @@ def search(ck: Ck) -> None:
     ck.extra['oracle_violation_keys'] = sorted(found)
 
 
+# ------------------------------------------------------------------------------------------------ correspondence
+IMPORTS = ['stdpp.gmap', 'stdpp.sets', 'stdpp.list', 'Coq.NArith.NArith', 'SV.SM.IndexModel']
+PRE = r"""
+Fixpoint ins_nat (x : nat) (l : list nat) : list nat :=
+  match l with [] => [x] | y :: r => if Nat.leb x y then x :: l else y :: ins_nat x r end.
+Definition sorted_elems (s : gset nat) : list nat := foldr ins_nat [] (elements s).
+Definition nonempty {K} `{Countable K} (m : gmap K (gset nat)) : nat :=
+  length (List.filter (fun kv : K * gset nat => match elements kv.2 with [] => false | _ => true end) (map_to_list m)).
+Definition eqb_ln (a b : list nat) : bool := bool_decide (a = b).
+Definition eqb_kvs (a b : kvs) : bool := bool_decide (a = b).
+(* expected observation: error code, entity list, spawn, key lists of all objects, by_class, by_target *)
+Definition exp := (nat * list nat * nat * list kvs * list (str * list nat) * list (option str * list nat))%type.
+Definition check_obs (st : mstate) (er : nat) (x : exp) : bool :=
+  let '(xer, xents, xspawn, xkeys, xbc, xbt) := x in
+  Nat.eqb er xer && eqb_ln (ents st) xents && Nat.eqb (spawn st) xspawn
+  && Nat.eqb (nobj st) (length xkeys)
+  && forallb (fun p : nat * kvs => eqb_kvs (keys_of st p.1) p.2) (imap (fun i l => (i, l)) xkeys)
+  && Nat.eqb (nonempty (by_class st)) (length xbc) && Nat.eqb (nonempty (by_target st)) (length xbt)
+  && forallb (fun p : str * list nat => eqb_ln (sorted_elems (ix_get (by_class st) p.1)) p.2) xbc
+  && forallb (fun p : option str * list nat => eqb_ln (sorted_elems (ix_get (by_target st) p.1)) p.2) xbt.
+(* a case: steps with the map to observe and the expected observation; result = index of first disagreement *)
+Fixpoint first_bad (n : nat) (steps : list (wop * nat * exp)) (w : list mstate) : option nat :=
+  match steps with
+  | [] => None
+  | (o, m, x) :: r =>
+      let '(w', er) := wstep ascii_fold o w in
+      match w' !! m with
+      | Some st => if check_obs st er x then first_bad (S n) r w' else Some n
+      | None => Some n
+      end
+  end.
+Definition w2 : list mstate := [init; init].
+Definition sq (s : list nat) (q : str) (st : mstate) : bool := eqb_ln (sorted_elems (search ascii_fold q st)) s.
+"""
+
+
+def _strtab(tab: dict, s: str) -> str:
+    if s not in tab:
+        tab[s] = f's{len(tab)}'
+    return tab[s]
+
+
+def _c_kvs(tab, kvs) -> str:
+    return '[' + '; '.join(f'({_strtab(tab, k)}, {_strtab(tab, v)})' for k, v in kvs) + ']'
+
+
+def _c_nats(xs) -> str:
+    return '[' + '; '.join(str(int(x)) for x in xs) + ']'
+
+
+def coq_wop(tab, op) -> str:
+    k = op[0]
+    if k == 'newmap':
+        return 'WNewMap'
+    if k == 'parse':
+        ents = [kv for kv, h in op[2] if not h] + [kv for kv, h in op[2] if h]
+        return f'WParse {_c_kvs(tab, op[1])} [{"; ".join(_c_kvs(tab, e) for e in ents)}]'
+    if k == 'copy':
+        return f'WCopy {op[1]} {op[2]} {op[3]}'
+    m = op[1]
+    if k == 'new':
+        o = f'NewEnt {_c_kvs(tab, op[2])}'
+    elif k == 'create':
+        o = f'CreateEnt {_strtab(tab, op[2])} {_c_kvs(tab, op[3])}'
+    elif k == 'add':
+        o = f'AddEnt {op[2]}'
+    elif k == 'adds':
+        o = f'AddEnts {_c_nats(op[2])}'
+    elif k == 'rem':
+        o = f'RemoveEnt {op[2]}'
+    elif k == 'set':
+        o = f'SetItem {op[2]} {_strtab(tab, op[3])} {_strtab(tab, op[4])}'
+    elif k == 'del':
+        o = f'DelItem {op[2]} {_strtab(tab, op[3])}'
+    elif k == 'dels':
+        o = f'DelItems {op[2]} [{"; ".join(_strtab(tab, x) for x in op[3])}]'
+    elif k == 'pop':
+        o = f'Pop {op[2]} {_strtab(tab, op[3])}'
+    elif k == 'popitem':
+        o = f'PopItem {op[2]}'
+    elif k == 'setdefault':
+        o = f'SetDefault {op[2]} {_strtab(tab, op[3])} {_strtab(tab, op[4])}'
+    elif k == 'update':
+        o = f'Update {op[2]} {_c_kvs(tab, op[3])}'
+    elif k == 'clear':
+        o = f'Clear {op[2]}'
+    elif k == 'uniq':
+        o = f'MakeUnique {op[2]} {_strtab(tab, op[3])}'
+    elif k == 'export':
+        o = f'Export {_strtab(tab, "0")}'
+    else:
+        raise AssertionError(op)
+    return f'WOp {m} ({o})'
+
+
+def coq_exp(tab, err: int, obs: dict) -> str:
+    bc = '[' + '; '.join(f'({_strtab(tab, k)}, {_c_nats(v)})' for k, v in obs['by_class']) + ']'
+    bt = '[' + '; '.join(f'({"None" if k is None else "Some " + _strtab(tab, k)}, {_c_nats(v)})' for k, v in obs['by_target']) + ']'
+    keys = '[' + '; '.join(_c_kvs(tab, kv) for kv in obs['keys']) + ']'
+    return f'({err}, {_c_nats(obs["ents"])}, {obs["spawn"]}, {keys}, {bc}, {bt})'
+
+
+def observed_map(w: World, op) -> int:
+    k = op[0]
+    if k in ('newmap', 'parse'):
+        return len(w.maps) - 1
+    if k == 'copy':
+        return op[3]
+    return op[1]
+
+
+def run_case(ops) -> tuple[list, list]:
+    """Run on the implementation; returns ([(flat_op, observed_map, err, obs)], [(map, query, sorted result)])."""
+    w = World(2)
+    steps = []
+    for op in ops:
+        for flat, err in w.steps(op):
+            m = observed_map(w, flat)
+            steps.append((flat, m, err, w.observe(m)))
+    queries = []
+    for m in range(len(w.maps)):
+        for q in QUERIES:
+            got = sorted({w.eid(m, e) for e in w.maps[m].search(q)})
+            queries.append((m, q, got))
+    return steps, queries
+
+
+def corr(ck: Ck) -> None:
+    n = ck.budget(360, 6000)
+    cases = []
+    seqs: list = list(CORPUS)
+    if ck.thorough or ck.tie_broken:
+        seqs += list(exhaustive_short())
+    while len(seqs) < n:
+        seqs.append(gen_ops(ck.rng, ck.rng.choice([3, 6, 12, 25, 40])))
+    for ops in seqs:
+        steps, queries = run_case(ops)
+        cases.append((ops, steps, queries))
+        ck.count('correspondence_sequences')
+        ck.count('correspondence_steps', len(steps))
+        ck.hist('corr_len', len(steps) // 10 * 10)
+        errs = 0
+        for flat, _m, err, _o in steps:
+            ck.hist('corr_ops', flat[0])
+            ck.hist('corr_err', err)
+            errs += err != 0
+        kinds = {s[0][0] for s in steps}
+        if len(steps) >= 2 and kinds & {'set', 'del', 'dels', 'pop', 'popitem', 'update', 'clear', 'uniq', 'rem'}:
+            ck.seen(('corr', repr(ops)))
+    ck.sample({'correspondence_ops': cases[len(CORPUS)][0][:6], 'impl_observation_after_last_step': cases[len(CORPUS)][1][-1][3] if cases[len(CORPUS)][1] else None})
+    bad: list[tuple[int, Any]] = []
+    bad_q: list[tuple[int, Any]] = []
+    B = 120
+    for lo in range(0, len(cases), B):
+        part = cases[lo:lo + B]
+        tab: dict[str, str] = {}
+        lits = []
+        qlits = []
+        for ops, steps, queries in part:
+            lits.append('[' + '; '.join(f'({coq_wop(tab, f)}, {m}, {coq_exp(tab, err, obs)})' for f, m, err, obs in steps) + ']')
+            flat_ops = '[' + '; '.join(coq_wop(tab, f) for f, _m, _e, _o in steps) + ']'
+            qs = ' && '.join(f'match w !! {m} with Some st => sq {_c_nats(r)} {_strtab(tab, q)} st | None => false end'
+                             for m, q, r in queries)
+            qlits.append(f'(let w := wrun ascii_fold {flat_ops} w2 in {qs})')
+        pre = PRE + ''.join(f'Definition {name} : str := {_coq_str(s)}.\n' for s, name in tab.items())
+        exprs = ['[' + '; '.join(f'first_bad 0 {l} w2' for l in lits) + ']',
+                 '[' + '; '.join(qlits) + ']']
+        vals = ck.coq_eval(IMPORTS, exprs, name='index', preamble=pre, timeout=900)
+        if vals is None:
+            ck.obligation('correspondence:index_ops', False, 'model could not be evaluated')
+            ck.tie_broken.append('correspondence index operations: model evaluation failed')
+            return
+        from harness.common import parse_coq_nested
+        res = parse_coq_nested(vals[0])
+        for i, r in enumerate(res):
+            if r is not None:
+                bad.append((lo + i, r[1] if isinstance(r, tuple) else r))
+        resq = parse_coq_nested(vals[1])
+        for i, r in enumerate(resq):
+            if r is not True:
+                bad_q.append((lo + i, None))
+    ck.obligation('correspondence:index_ops', not bad,
+                  f'{len(cases)} histories / {sum(len(c[1]) for c in cases)} steps: after every step error code, entity list, '
+                  f'spawn, all key lists, by_class and by_target of model (vm_compute) vs implementation: {len(bad)} disagreements')
+    ck.obligation('correspondence:search', not bad_q,
+                  f'{len(cases)} final worlds x {len(QUERIES)} queries per map, model search vs VMF.search: {len(bad_q)} disagreements')
+    if bad:
+        i, step = min(bad, key=lambda b: len(cases[b[0]][1]))
+        ck.tie_broken.append('correspondence index operations (SM/IndexModel.v wstep vs real VMF/Entity objects)')
+        ck.extra['index_disagreement'] = {'ops': cases[i][0], 'first_bad_step': step,
+                                          'flat_step': repr(cases[i][1][step][0]) if step < len(cases[i][1]) else None,
+                                          'impl_obs': cases[i][1][step][3] if step < len(cases[i][1]) else None}
+    if bad_q:
+        ck.tie_broken.append('correspondence search (SM/IndexModel.v search vs VMF.search)')
+        ck.extra['search_disagreement'] = {'ops': cases[bad_q[0][0]][0], 'queries': cases[bad_q[0][0]][2]}
+
+
+def _coq_str(s: str) -> str:
+    return '[' + ';'.join(str(ord(c)) for c in s) + ']%N' if s else '[]'
+
+
+def exhaustive_short():
+    """All histories of length <= 2 over one added entity with a mixed-case name and class, drawn from a small
+    alphabet of key operations (thorough tier)."""
+    base = [('create', 0, 'Ab', [('targetname', 'aB')])]
+    alphabet = []
+    for e in (0, 1):
+        for k in ('classname', 'Classname', 'targetname', 'TargetName', 'x'):
+            for v in ('a', 'A', '', 'worldspawn'):
+                alphabet.append(('set', 0, e, k, v))
+            alphabet.append(('del', 0, e, k))
+            alphabet.append(('pop', 0, e, k))
+        alphabet += [('clear', 0, e), ('popitem', 0, e), ('rem', 0, e, True), ('uniq', 0, e, 'a'), ('copy', 0, e, 1)]
+    alphabet += [('add', 0, 1), ('export', 0), ('add', 1, 1)]
+    for a in alphabet:
+        yield base + [a]
+    for a, b in itertools.product(alphabet, repeat=2):
+        yield base + [a, b]
+
+
+# ------------------------------------------------------------------------------------------------ main
 def run(ck: Ck) -> None:
+    ck.rule = ('histories over 2-3 real VMF objects with at most 6 entities each; names drawn from '
+               "{a, A, Ab, aB, '', a1, worldspawn} (oracle stream also ß/SS/ss/İ), keys from classname/targetname in "
+               'three spellings plus two other keys; operations create/new/copy/add/adds/remove/set/del/tuple-del/pop/'
+               'popitem/setdefault/update/clear/make_unique/export/parse/new map/iterate-while-mutating; a history is '
+               'non-trivial when it adds an entity to a map and afterwards mutates keys or removes; distinct by full history')
+    ck.trusted.append('hand-written model SM/IndexModel.v (tied by the operation-sequence correspondence and the census translator on every run)')
+    ck.assumptions += [
+        'str.casefold leaves the empty string and the literals classname/targetname/worldspawn unchanged (hypotheses of every theorem; true of CPython)',
+        'operations refer to Entity objects created with the same VMF as parent; vmf.add_ent(vmf.spawn) is outside the domain',
+        "the 'nodeid' keyvalue processing of __setitem__/__delitem__/add_ent/remove_ent (property C08) does not touch classname/targetname and is not modelled",
+    ]
+    built = ck.build(['Props/C07.vo'])
+    if built:
+        ck.theorems('Props/C07.v')
+        corr(ck)
     search(ck)
+    keys = {v['key'] for v in ck.violations}
+    if keys:
+        ck.explain('correspondence:')
+        ck.explain('instance:')
 
 
 def _tuplify(x):
